@@ -91,7 +91,7 @@ for f in sorted(glob.glob(os.path.join(TRIALS, "*.confirm.json"))):
             prev = det.get(k)
             # later runs (strengthened checks) supersede earlier ones
             det[k] = {"exit": v["exit"], "signatures": sigs, "details": v.get("first_details", [])[:3], "run": os.path.basename(df)}
-            if prev and prev["exit"] == 0 and v["exit"] == 1:
+            if prev and prev["exit"] != 1 and v["exit"] == 1:
                 det[k]["missed_before_strengthening"] = True
     what, needs = NEEDS.get(sid, ("", ""))
     meta = {
